@@ -110,5 +110,20 @@ C17_SPECS = [dict(name='c17_datetime_order_is_chronological', types=['i8', 'i8',
                   scenario=lambda vals: {'kind': 'datetime_cmp', 'oa': _i8(vals[0]), 'ob': _i8(vals[1]), 'sa': vals[2], 'sb': vals[3]}, confirm=_dt_confirm)]
 
 
+def _dt_ns_confirm(vals):
+    oa, ob, sa, sb, na, nb = vals
+    def f(r):
+        if r.get('outcome') != 'ok': return True
+        ka, kb = (sa, na), (sb, nb)
+        return r['eq'] != (ka == kb) or r['cmp'] != ('lt' if ka < kb else 'gt' if ka > kb else 'eq')
+    return f
+
+
+C17_SPECS.append(dict(name='c17_datetime_order_subsecond', types=['i8', 'i8', 'i32', 'i32', 'i32', 'i32'],
+                      desc='two date-times within a few seconds of each other, each with any nanosecond part and shown in any whole-hour offset, are equal exactly when they denote the same instant to the nanosecond and are ordered chronologically',
+                      bounds={'offsets': '-12..+14 hours (whole hours)', 'instants': 'base + (-2..2 s) + (0..999999999 ns)'},
+                      scenario=lambda vals: {'kind': 'datetime_cmp', 'oa': _i8(vals[0]), 'ob': _i8(vals[1]), 'sa': vals[2], 'sb': vals[3], 'na': vals[4], 'nb': vals[5]}, confirm=_dt_ns_confirm))
+
+
 def _i8(b):
     return b - 256 if isinstance(b, int) and b > 127 else b
